@@ -51,10 +51,18 @@ def probe(binary, c, idx, local_id, b11, b11_self):
         big = 2**62
         if c["mpp"] == 0:
             # a zero MPP timeout fails every set at once: only the timing and the self-hint probe are meaningful
-            t0 = time.time()
-            n.hook("d", request(payload(b11), phash(0), 5, 1000 + 70000, 70000, 4, forward=5, total=big))
-            rd = n.wait_reply("d", 6)
-            ob["mpp_ds"] = int(round((time.time() - t0) * 10)) if rd and rd.get("result", {}).get("failure_message") == "2019" else 10**6
+            best = 10**6
+            for attempt in range(3):
+                t0 = time.time()
+                rid = "d%d" % attempt
+                n.hook(rid, request(payload(b11), phash(0), 5, 1000 + 70000, 70000, 4 + attempt, forward=5, total=big))
+                rd = n.wait_reply(rid, 8)
+                if rd and rd.get("result", {}).get("failure_message") == "2019":
+                    ds = int(round((time.time() - t0) * 10)); best = min(best, ds)
+                    if ds <= 8: break
+                else:
+                    break
+            ob["mpp_ds"] = best
             n.hook("c", request(payload(b11_self), phash(1), big, 1000 + 70000, 70000, 3, forward=big, total=big))
             rc = n.wait_reply("c", 15)
             ob["self_failed"] = bool(rc and rc.get("result", {}).get("result") == "fail" and rc["result"].get("failure_message") == "2002")
@@ -82,13 +90,22 @@ def probe(binary, c, idx, local_id, b11, b11_self):
         ob["self_failed"] = bool(rc and rc.get("result", {}).get("result") == "fail" and rc["result"].get("failure_message") == "2002")
         # (d) MPP timeout in real time: a partial HTLC of a fresh hash
         if 0 <= c["mpp"] <= 3:
-            t0 = time.time()
-            n.hook("d", request(payload(b11.replace("x", "x")), phash(0), 5, 1000 + 70000, 70000, 4, forward=5, total=big))
-            rd = n.wait_reply("d", c["mpp"] + 6)
-            if rd and rd.get("result", {}).get("failure_message") == "2019":
-                ob["mpp_ds"] = int(round((time.time() - t0) * 10))
-            else:
-                ob["mpp_ds"] = 10**6
+            # real time: a loaded machine can only make the answer LATE, never early. The probe is repeated (fresh HTLC of the
+            # same hash, whose entry is gone after the failure) up to three times while it is late, and the earliest answer
+            # counts; an answer that comes early, or a timeout that really is longer, shows in every attempt.
+            best = 10**6
+            for attempt in range(3):
+                t0 = time.time()
+                rid = "d%d" % attempt
+                n.hook(rid, request(payload(b11), phash(0), 5, 1000 + 70000, 70000, 4 + attempt, forward=5, total=big))
+                rd = n.wait_reply(rid, c["mpp"] + 8)
+                if rd and rd.get("result", {}).get("failure_message") == "2019":
+                    ds = int(round((time.time() - t0) * 10))
+                    best = min(best, ds)
+                    if ds <= c["mpp"] * 10 + 8: break
+                else:
+                    break
+            ob["mpp_ds"] = best
         ob["bad_frames"] = n.bad_frames
     finally:
         n.stop()
